@@ -293,6 +293,9 @@ impl Prop for C02 {
             return r;
         }
         let (cfg, off) = cfg_a(cx);
+        // a third of the programs are small (a handful of lines)
+        let small = g.bool(1, 3);
+        let cfg = if small { cfg.small(g) } else { cfg };
         let mut pg = PG::new(g, cfg);
         let mut p = pg.program();
         let feat = pg.feat.clone();
@@ -313,6 +316,7 @@ impl Prop for C02 {
             r.classes.push("shadow:top-level-name".into());
         }
         r.classes.push("mode:gen".into());
+        r.classes.push(if small { "size:small".into() } else { "size:full".into() });
         for id in off {
             r.count(&format!("generator_switch_off:{id}"), 1);
         }
@@ -344,7 +348,7 @@ impl Prop for C02 {
         Some(r)
     }
     fn rule(&self) -> String {
-        "Cases are (program of the core fragment CoreGen-A, input stream, run length). CoreGen-A: arithmetic/comparison/logic, builtins, let with tuple/record patterns, if with comparison conditions, blocks with assignments, named functions, lambdas, local closures (read-only capture), counter-maker closures bound at global scope, higher-order functions receiving lambdas or stateless named functions, pipes, self (scalar and tuple), mem, delay with literal time in [1, N-1], now, samplerate, 0-1 dsp inputs. In a third of the programs 1-4 binders are renamed to a name that already occurs earlier in the same function or at top level (a shadowing let, a lambda parameter named like a local of the enclosing frame, a local named like a global or a top-level function), only where every occurrence of the reused name lies textually before the new binder, so lexical scoping gives the same meaning as with distinct names. Oracle: an independent reference interpreter written from the property statement (environments of shared cells, strict left-to-right evaluation, a state tree keyed by textual call site, self = previous return value, mem = one-sample delay, delay = history lookup) must agree bitwise (NaN=NaN) with the VM on every output word of every sample. A calibration space replays 8 fixtures of the repository transcribed into the harness AST and checks the reference against the fixtures' expected vectors as well. Non-trivial = stateful program, >= 3 samples, output varies over time.".into()
+        "Cases are (program of the core fragment CoreGen-A, input stream, run length). CoreGen-A: arithmetic/comparison/logic, builtins, let with tuple/record patterns, if with comparison conditions, blocks with assignments, named functions, lambdas, local closures (read-only capture), counter-maker closures bound at global scope, higher-order functions receiving lambdas or stateless named functions, pipes, self (scalar and tuple), mem, delay with a time in [1, N-1] that is a literal or changes from sample to sample (`if (cmp) { t1 } else { t2 }`, `t0 + now % k`), now, samplerate, 0-1 dsp inputs. In a third of the programs 1-4 binders are renamed to a name that already occurs earlier in the same function or at top level (a shadowing let, a lambda parameter named like a local of the enclosing frame, a local named like a global or a top-level function), only where every occurrence of the reused name lies textually before the new binder, so lexical scoping gives the same meaning as with distinct names. Oracle: an independent reference interpreter written from the property statement (environments of shared cells, strict left-to-right evaluation, a state tree keyed by textual call site, self = previous return value, mem = one-sample delay, delay = history lookup) must agree bitwise (NaN=NaN) with the VM on every output word of every sample. A calibration space replays 8 fixtures of the repository transcribed into the harness AST and checks the reference against the fixtures' expected vectors as well. Non-trivial = stateful program, >= 3 samples, output varies over time.".into()
     }
     fn assumptions(&self) -> Vec<String> {
         vec![
@@ -354,6 +358,6 @@ impl Prop for C02 {
         ]
     }
     fn required_classes(&self, _tier: Tier) -> Vec<&'static str> {
-        vec!["mode:calibration", "output-varies", "f:self", "f:tuple-self", "f:mem", "f:delay", "f:stateful-call", "f:nested-stateful", "f:same-fn-many-sites", "f:maker-closure", "f:local-closure", "f:hof", "f:assign", "f:record", "shadow:local", "shadow:top-level-name"]
+        vec!["mode:calibration", "output-varies", "f:self", "f:tuple-self", "f:mem", "f:delay", "f:stateful-call", "f:nested-stateful", "f:same-fn-many-sites", "f:maker-closure", "f:local-closure", "f:hof", "f:assign", "f:record", "shadow:local", "shadow:top-level-name", "f:varying-delay-time"]
     }
 }
